@@ -1705,7 +1705,8 @@ func parseFieldStrValue(s string) (string, error) {
 		ret.WriteString(s)
 		return ret.String(), nil
 	}
-	return "", nil
+	// the value contains a quote but does not start with one: it is neither a string nor a number
+	return "", fmt.Errorf("missing opening quote for quoted field value %s", s)
 }
 
 func nextUnescapedChar(s string, ch byte, noEscapeChars, enableTagArray, tagParse bool) int {
